@@ -160,3 +160,23 @@ def has(root: ast.AST, pattern: str, binds: Optional[Dict[str, object]] = None, 
 def first(root: ast.AST, pattern: str, binds: Optional[Dict[str, object]] = None):
     r = find(root, pattern, binds)
     return r[0] if r else (None, None)
+
+
+def expand_single_defs(fn: ast.AST, e: ast.AST, depth: int = 4, skip=()) -> ast.AST:
+    """`e` with every read of a local that `fn` binds exactly once replaced by the value it is bound to (recursively):
+    the expression the code computes, written without its temporaries.  For matching only."""
+    import copy
+    env = single_defs(fn)
+
+    class X(ast.NodeTransformer):
+        def __init__(self, d):
+            self.d = d
+
+        def visit_Name(self, n):
+            if isinstance(n.ctx, ast.Load) and n.id in env and n.id not in skip and self.d > 0:
+                return X(self.d - 1).visit(copy.deepcopy(env[n.id]))
+            return n
+
+        def visit_Lambda(self, n):
+            return n
+    return X(depth).visit(copy.deepcopy(e))
